@@ -20,16 +20,21 @@ Add(bag, p) == [bag EXCEPT ![PIdx(p)] = @ + 1]
 RECURSIVE SumSeq(_)
 SumSeq(q) == IF q = <<>> THEN 0 ELSE Head(q) + SumSeq(Tail(q))
 
-InitSt == [inst |-> FALSE, nop |-> FALSE, t |-> Empty]
+\* cmt: the comment of table t ("" none); COMMENT ON TABLE / ALTER TABLE .. SET COMMENT are statements of a script like any other
+InitSt == [inst |-> FALSE, nop |-> FALSE, t |-> Empty, cmt |-> ""]
 
 \* ---- observations ----
 \*  res     : "ok" | "err" (the call raised a ProgrammingError) | "status" (one-row success status)
 \*  results : per executed statement, in order: 1 for an insert (rows inserted), the count for a count query
 \*  n       : number of cursors execute_string returned (-1: it raised / not applicable)
 \*  t       : the table afterwards, read through a raw cursor, as a bag of payload classes
-Obs(res, results, n, st2) == [res |-> res, results |-> results, n |-> n, t |-> st2.t]
+Obs(res, results, n, st2) == [res |-> res, results |-> results, n |-> n, t |-> st2.t, cmt |-> st2.cmt]
 
-IsStmt(it) == it.k \in {"ins", "sel", "fail"}
+IsStmt(it) == it.k \in {"ins", "sel", "fail", "cmton", "cmtset"}
+CmtOf(it, c) == IF it.k = "cmton" THEN "c1" ELSE IF it.k = "cmtset" THEN "c2" ELSE c
+\* the comment after running items (up to the first failure) from comment c
+RECURSIVE RunCmt(_, _)
+RunCmt(items, c) == IF items = <<>> THEN c ELSE IF Head(items).k = "fail" THEN c ELSE RunCmt(Tail(items), CmtOf(Head(items), c))
 \* run the statements of items in order from table bag b: <<bag, results, failed>>
 RECURSIVE Run(_, _, _)
 Run(items, b, acc) ==
@@ -38,13 +43,14 @@ Run(items, b, acc) ==
        IF ~IsStmt(it) THEN Run(Tail(items), b, acc)                       \* comments / empty statements are ignored
        ELSE IF it.k = "fail" THEN <<b, acc, TRUE>>                        \* stop at the first failure, prefix applied
        ELSE IF it.k = "ins" THEN Run(Tail(items), Add(b, it.p), Append(acc, 1))
+       ELSE IF it.k \in {"cmton", "cmtset"} THEN Run(Tail(items), b, Append(acc, -1))      \* a status row, no count
        ELSE Run(Tail(items), b, Append(acc, SumSeq(b)))
 
 Steps(st, op, D) ==
   CASE op.k = "inst" -> LET s2 == [st EXCEPT !.inst = TRUE, !.nop = op.nop] IN {R(s2, Obs("ok", <<>>, -1, s2))}
     [] op.k = "script" ->
          LET r == Run(op.items, st.t, <<>>)
-             s2 == [st EXCEPT !.t = r[1]] IN
+             s2 == [st EXCEPT !.t = r[1], !.cmt = RunCmt(op.items, st.cmt)] IN
          IF r[3] THEN \* a failing statement: execute_string raises (no cursor is handed out); one-by-one saw the prefix results
               {R(s2, Obs("err", IF op.via = "string" THEN <<>> ELSE r[2], -1, s2))}
          ELSE {R(s2, Obs("ok", r[2], IF op.via = "string" THEN Len(r[2]) ELSE -1, s2))}
@@ -62,12 +68,16 @@ Steps(st, op, D) ==
             ELSE {plain}
 
 \* ---- vocabulary ----
-CONSTANTS MaxItems, PayloadsUsed
+CONSTANTS MaxItems, PayloadsUsed, DataScripts, NopUsed
 Items == [k : {"ins"}, p : PayloadsUsed] \cup [k : {"sel", "fail", "lc", "bc", "empty", "ws"}]
+\* empty: with nop = FALSE, whether the instance is made with nop_regexes = [] (an empty pattern set matches nothing) or None;
+\* rc: the remove_comments argument of execute_string (comments are not statements either way)
+CmtItems == [k : {"cmton", "cmtset"}]
 Ops(st) ==
-  IF ~st.inst THEN [k : {"inst"}, nop : BOOLEAN]
-  ELSE [k : {"script"}, items : SeqsUpTo(Items, MaxItems), via : {"string", "onebyone"}, cc : {"tuple", "dict"}]
-       \cup [k : {"nopstmt"}, w : {"call", "call_ws", "call_upper", "grant", "ins_callx", "ins_granty", "sel_grantz"}]
+  IF ~st.inst THEN {o \in [k : {"inst"}, nop : BOOLEAN, empty : BOOLEAN] : o.nop => ~o.empty}
+  ELSE (IF DataScripts THEN [k : {"script"}, items : SeqsUpTo(Items, MaxItems), via : {"string", "onebyone"}, cc : {"tuple", "dict"}, rc : BOOLEAN] ELSE {})
+       \cup [k : {"script"}, items : SeqsUpTo(CmtItems, 1) \ {<<>>}, via : {"string", "onebyone"}, cc : {"tuple"}, rc : {FALSE}]
+       \cup [k : {"nopstmt"}, w : {"call", "call_ws", "call_upper", "grant", "ins_callx", "ins_granty", "sel_grantz"} \cap NopUsed]
 
 \* ---- C16 on the model ----
 StepOk(st, op, r) ==
